@@ -14,18 +14,42 @@ Theorem C08_each_sample_once_in_order :
 Proof. exact samples_of_spec. Qed.
 Print Assumptions C08_each_sample_once_in_order.
 
-(* The i-th of the n readings of a sensor element gets start + i*(end-start)/n (in ns, start
-   and end the media times of the sample containing it): the first reading sits at the
-   sample's start, offsets never decrease and stay inside the sample's own interval. *)
+(* The i-th of the n readings of a sensor element gets start + i*(end-start)/n in nanoseconds,
+   where start and end are the media times at which the sample containing it begins and ends:
+   floor (ticks * 1e9 / timescale), exact to the nanosecond for every timescale, whether or not it
+   divides a second (after the repair D27; before it the tick length was truncated and the times
+   drifted).  The first reading sits at the sample's start, offsets never decrease and stay
+   inside the sample's own interval. *)
 Theorem C08_offsets_formula :
-  forall units sm n i,
-    (i < n)%nat -> 0 <= units -> 0 <= sm_start sm <= sm_end sm -> sm_end sm * units < 2 ^ 63 ->
-    let start := sm_start sm * units in let stop := sm_end sm * units in
-    nth i (reading_offsets units sm n) 0 = start + Z.of_nat i * ((stop - start) / Z.of_nat n) /\
-    start <= nth i (reading_offsets units sm n) 0 <= stop /\
-    (start < stop -> nth i (reading_offsets units sm n) 0 < stop).
-Proof. exact reading_offsets_spec. Qed.
+  forall ts sm n i,
+    (i < n)%nat -> 0 < ts -> 0 <= sm_start sm <= sm_end sm -> sm_end sm * 1000000000 / ts < 2 ^ 63 ->
+    let start := sm_start sm * 1000000000 / ts in let stop := sm_end sm * 1000000000 / ts in
+    nth i (reading_offsets ts sm n) 0 = start + Z.of_nat i * ((stop - start) / Z.of_nat n) /\
+    start <= nth i (reading_offsets ts sm n) 0 <= stop.
+Proof. exact reading_offsets_media_time. Qed.
 Print Assumptions C08_offsets_formula.
+
+Theorem C08_offsets_inside :
+  forall ts sm n i,
+    (i < n)%nat ->
+    let start := media_time ts (sm_start sm) in let stop := media_time ts (sm_end sm) in
+    0 <= start <= stop -> stop < 2 ^ 63 ->
+    nth i (reading_offsets ts sm n) 0 = start + Z.of_nat i * ((stop - start) / Z.of_nat n) /\
+    start <= nth i (reading_offsets ts sm n) 0 <= stop /\
+    (start < stop -> nth i (reading_offsets ts sm n) 0 < stop).
+Proof. exact reading_offsets_spec. Qed.
+Print Assumptions C08_offsets_inside.
+
+Theorem C08_media_time_exact :
+  forall ts ticks, 0 < ts -> 0 <= ticks -> ticks * 1000000000 / ts < 2 ^ 63 ->
+    media_time ts ticks = ticks * 1000000000 / ts.
+Proof. exact media_time_floor. Qed.
+Print Assumptions C08_media_time_exact.
+
+(* the pre-repair rule ticks * (1e9 / timescale) is refuted at 90 kHz: one hour comes out 36 ms short *)
+Example C08_truncated_tick_refuted :
+  324000000 * (1000000000 / 90000) = 3599964000000 /\ media_time 90000 324000000 = 3600000000000.
+Proof. split; vm_compute; reflexivity. Qed.
 
 (* a file without a GoPro metadata track is an error *)
 Theorem C08_no_track_is_error :
